@@ -1361,8 +1361,12 @@ class MyPyAstVisitor:
                         # For wildcard imports we check in the _is_public method if the func / class is internal
                         for qualified_import in reexport_source.qualified_imports:
 
-                            # The imported name has to match whole segments ("utils.x" does not import "_utils.x")
-                            if f".{qname}".endswith(f".{qualified_import.qualified_name}") and (
+                            # The imported name has to be the name of the declaration, either absolute or relative to
+                            # the package of the source ("from . import config" does not import "_impl.config")
+                            if qname in {
+                                qualified_import.qualified_name,
+                                f"{reexport_source.id.replace('/', '.')}.{qualified_import.qualified_name}",
+                            } and (
                                 qualified_import.alias is not None
                                 and not is_internal(qualified_import.alias)
                                 or (qualified_import.alias is None and not_internal)
